@@ -559,6 +559,107 @@ Qed.
 
 End Update.
 
+(* ---- the matrix part of gen_update is update3 (the bookkeeping on the heap
+   and the candidates does not touch the matrix) ---- *)
+Ltac unbind H :=
+  repeat (match type of H with
+          | bind ?x _ = Ok _ => let E := fresh "E" in destruct x eqn:E; cbn [bind] in H; [|discriminate H|discriminate H]
+          | (let '(_, _) := ?x in _) = Ok _ => destruct x
+          | (if ?c then _ else _) = Ok _ => destruct c
+          | (match ?c with BelowRename => _ | BelowCheck => _ end) = Ok _ => destruct c
+          end).
+
+Lemma gen_below_fst a b dist sa sb s M x s1 M1 :
+  gen_below K p meth a b dist sa sb (s, M) x = Ok (s1, M1) ->
+  upd_cell K p meth (st_sizes s) M x a x b x dist sa sb = Ok M1
+  /\ st_sizes s1 = st_sizes s /\ st_active s1 = st_active s.
+Proof.
+  unfold gen_below. intros H.
+  destruct (upd_cell K p meth (st_sizes s) M x a x b x dist sa sb) as [M'| |]; cbn [bind] in H; try discriminate.
+  unbind H; inversion H; subst; repeat split; reflexivity.
+Qed.
+
+Lemma gen_between_fst a b dist sa sb s M x s1 M1 :
+  gen_between K p meth a b dist sa sb (s, M) x = Ok (s1, M1) ->
+  upd_cell K p meth (st_sizes s) M a x x b x dist sa sb = Ok M1
+  /\ st_sizes s1 = st_sizes s /\ st_active s1 = st_active s.
+Proof.
+  unfold gen_between. intros H.
+  destruct (upd_cell K p meth (st_sizes s) M a x x b x dist sa sb) as [M'| |]; cbn [bind] in H; try discriminate.
+  unbind H; inversion H; subst; repeat split; reflexivity.
+Qed.
+
+Lemma gen_above_fst a b dist sa sb s M mn x s1 M1 mn1 :
+  gen_above K p meth a b dist sa sb (s, M, mn) x = Ok (s1, M1, mn1) ->
+  upd_cell K p meth (st_sizes s) M a x b x x dist sa sb = Ok M1
+  /\ st_sizes s1 = st_sizes s /\ st_active s1 = st_active s.
+Proof.
+  unfold gen_above. intros H.
+  destruct (upd_cell K p meth (st_sizes s) M a x b x x dist sa sb) as [M'| |]; cbn [bind] in H; try discriminate.
+  unbind H; inversion H; subst; repeat split; reflexivity.
+Qed.
+
+Lemma below_fold_fst a b dist sa sb : forall xs s M s' M',
+  mfold (gen_below K p meth a b dist sa sb) xs (s, M) = Ok (s', M') ->
+  mfold (fun M x => upd_cell K p meth (st_sizes s) M x a x b x dist sa sb) xs M = Ok M'
+  /\ st_sizes s' = st_sizes s /\ st_active s' = st_active s.
+Proof.
+  induction xs as [|x xs IH]; intros s M s' M' H; cbn [mfold] in H |- *.
+  - inversion H; subst. repeat split; reflexivity.
+  - destruct (gen_below K p meth a b dist sa sb (s, M) x) as [[s1 M1]| |] eqn:E; cbn [bind] in H; try discriminate.
+    destruct (gen_below_fst _ _ _ _ _ _ _ _ E) as (U & S1 & A1). rewrite U. cbn [bind].
+    destruct (IH _ _ _ _ H) as (F & S2 & A2). rewrite S1 in F. split; [exact F|]. split; congruence.
+Qed.
+
+Lemma between_fold_fst a b dist sa sb : forall xs s M s' M',
+  mfold (gen_between K p meth a b dist sa sb) xs (s, M) = Ok (s', M') ->
+  mfold (fun M x => upd_cell K p meth (st_sizes s) M a x x b x dist sa sb) xs M = Ok M'
+  /\ st_sizes s' = st_sizes s /\ st_active s' = st_active s.
+Proof.
+  induction xs as [|x xs IH]; intros s M s' M' H; cbn [mfold] in H |- *.
+  - inversion H; subst. repeat split; reflexivity.
+  - destruct (gen_between K p meth a b dist sa sb (s, M) x) as [[s1 M1]| |] eqn:E; cbn [bind] in H; try discriminate.
+    destruct (gen_between_fst _ _ _ _ _ _ _ _ E) as (U & S1 & A1). rewrite U. cbn [bind].
+    destruct (IH _ _ _ _ H) as (F & S2 & A2). rewrite S1 in F. split; [exact F|]. split; congruence.
+Qed.
+
+Lemma above_fold_fst a b dist sa sb : forall xs s M mn s' M' mn',
+  mfold (gen_above K p meth a b dist sa sb) xs (s, M, mn) = Ok (s', M', mn') ->
+  mfold (fun M x => upd_cell K p meth (st_sizes s) M a x b x x dist sa sb) xs M = Ok M'
+  /\ st_sizes s' = st_sizes s /\ st_active s' = st_active s.
+Proof.
+  induction xs as [|x xs IH]; intros s M mn s' M' mn' H; cbn [mfold] in H |- *.
+  - inversion H; subst. repeat split; reflexivity.
+  - destruct (gen_above K p meth a b dist sa sb (s, M, mn) x) as [[[s1 M1] mn1]| |] eqn:E; cbn [bind] in H; try discriminate.
+    destruct (gen_above_fst _ _ _ _ _ _ _ _ _ E) as (U & S1 & A1). rewrite U. cbn [bind].
+    destruct (IH _ _ _ _ _ _ H) as (F & S2 & A2). rewrite S1 in F. split; [exact F|]. split; congruence.
+Qed.
+
+Theorem gen_update_update3 s M a b dist0 s' M' :
+  gen_update K p meth s M a b dist0 = Ok (s', M') ->
+  exists sa sb dist, sizes_ab meth s a b = Ok (sa, sb)
+    /\ (if reads_dist meth then mget p M a b else Ok dist0) = Ok dist
+    /\ update3 K p meth s M a b dist sa sb = Ok M'
+    /\ st_sizes s' = st_sizes s /\ st_active s' = st_active s.
+Proof.
+  unfold gen_update, update3. intros H.
+  destruct (sizes_ab meth s a b) as [[sa sb]| |]; cbn [bind] in H; try discriminate.
+  destruct (if reads_dist meth then mget p M a b else Ok dist0) as [dist| |]; cbn [bind] in H; try discriminate.
+  exists sa, sb, dist. split; [reflexivity|]. split; [reflexivity|].
+  destruct (a_below (st_active s) a) as [xs1| |]; cbn [bind] in H |- *; try discriminate.
+  destruct (mfold (gen_below K p meth a b dist sa sb) xs1 (s, M)) as [[s1 M1]| |] eqn:F1; cbn [bind] in H; try discriminate.
+  destruct (below_fold_fst _ _ _ _ _ _ _ _ F1) as (G1 & S1 & A1). rewrite G1. cbn [bind].
+  destruct (a_between (st_active s) a b) as [xs2| |]; cbn [bind] in H |- *; try discriminate.
+  destruct (mfold (gen_between K p meth a b dist sa sb) xs2 (s1, M1)) as [[s2 M2]| |] eqn:F2; cbn [bind] in H; try discriminate.
+  destruct (between_fold_fst _ _ _ _ _ _ _ _ F2) as (G2 & S2 & A2). rewrite S1 in G2. rewrite G2. cbn [bind].
+  destruct (if tracks_candidates meth then h_priority (st_queue s2) b else Ok dist0) as [mn| |]; cbn [bind] in H; try discriminate.
+  rewrite A2, A1 in H.
+  destruct (a_above (st_active s) b) as [xs3| |]; cbn [bind] in H |- *; try discriminate.
+  destruct (mfold (gen_above K p meth a b dist sa sb) xs3 (s2, M2, mn)) as [[[s3 M3] mn3]| |] eqn:F3; cbn [bind] in H; try discriminate.
+  destruct (above_fold_fst _ _ _ _ _ _ _ _ _ F3) as (G3 & S3 & A3). rewrite S2, S1 in G3.
+  inversion H; subst s' M'. split; [exact G3|]. split; congruence.
+Qed.
+
 (* ---- loop invariant of generic_with ---- *)
 Definition GInv (n0 : nat) (s : lstate T) (d : dend T) (M : cmat T) (L : list nat) : Prop :=
   AInv (st_active s) L /\ wf_mat M /\ m_obs M = n0 /\ length (a_next (st_active s)) = n0 /\ NoDup L
@@ -568,12 +669,13 @@ Definition GInv (n0 : nat) (s : lstate T) (d : dend T) (M : cmat T) (L : list na
   /\ below_max M L
   /\ d_obs d = n0 /\ length (d_steps d) + length L = n0.
 
-Theorem gen_iter_step n0 s d M L i : GInv n0 s d M L -> 2 <= length L ->
+Theorem gen_iter_step_ext n0 s d M L i : GInv n0 s d M L -> 2 <= length L ->
   exists s' d' M' a b v sz,
     gen_iter K p meth (s, d, M) i = Ok (s', d', M')
     /\ In a L /\ In b L /\ a < b
     /\ d_steps d' = d_steps d ++ [step_new a b v sz]
-    /\ GInv n0 s' d' M' (without a L).
+    /\ GInv n0 s' d' M' (without a L)
+    /\ merge_facts K meth s s' M M' L a b v.
 Proof.
   intros (HA & Hwf & HMo & HN & Hnd & Hsz & Hn1 & Hz & Hzmax & HQ & Hbm & Hobs & Hcount) HL2.
   set (z := n0 - 1) in *. assert (Hzn : z < n0) by (unfold z; lia).
@@ -624,6 +726,26 @@ Proof.
   unfold d_push, d_len, assert_. destruct (Nat.ltb_spec (length (d_steps d)) (d_obs d - 1)); [|lia]. cbn [bind].
   eexists _, _, M3, a, b, dist, (za + zb). split; [reflexivity|].
   split; [exact Ha|]. split; [exact Hb|]. split; [exact Hab|]. split; [reflexivity|].
+  assert (Hmf : merge_facts K meth s (st_with_active (st_with_sizes s3 (set_nth (st_sizes s) b (za + zb))) act') M M3 L a b dist).
+  { destruct (gen_update_update3 _ _ _ _ _ Hupd) as (sa & sb & dist' & Hsab & Hdist' & Hu3 & _ & _).
+    assert (dist' = dist).
+    { destruct (reads_dist meth); [rewrite Hg in Hdist'|]; inversion Hdist'; reflexivity. } subst dist'.
+    assert (HA2 : AInv (st_active s2) L) by exact HA.
+    destruct (@update3_spec T K p meth s2 M M3 L a b dist sa sb HA2 Hwf
+                ltac:(unfold s2; cbn [st_with_queue st_with_nearest st_active]; lia) Ha Hb Hab Hu3)
+      as (_ & _ & Hin & Hout).
+    split; [exact Hdc|]. exists za, zb, sa, sb. split; [exact Eza|]. split; [exact Ezb|].
+    split; [reflexivity|]. split.
+    { unfold sizes_ab in Hsab. unfold s2 in Hsab. cbn [st_with_queue st_with_nearest st_sizes] in Hsab.
+      destruct (uses_sizes_ab meth).
+      - unfold vget in Hsab. rewrite Eza, Ezb in Hsab. cbn [bind] in Hsab. inversion Hsab. split; reflexivity.
+      - inversion Hsab. split; reflexivity. }
+    split; [exact Hin|].
+    intros x y Hx Hy Hxy Hxa Hxb Hya Hyb. unfold wcell. apply Hout.
+    - lia.
+    - destruct (Nat.max_spec x y) as [[_ ->]|[_ ->]]; [rewrite HMo; exact (HB y Hy)|rewrite HMo; exact (HB x Hx)].
+    - intros z0 Hz0 Hza' Hzb' E. inversion E as [[F1 F2]]. lia. }
+  split; [|exact Hmf].
   unfold GInv. cbn [st_with_active st_with_sizes st_active st_sizes st_queue st_nearest d_steps d_obs].
   split; [exact HA'|]. split; [exact Hwf3|]. split; [exact Ho3|]. split; [lia|].
   split; [apply NoDup_filter; exact Hnd|]. split; [rewrite set_nth_length; exact Hsz|]. split; [exact Hn1|].
@@ -641,6 +763,17 @@ Proof.
   split.
   { intros x y v Hx Hy Hxy Hv. apply without_In in Hx. apply without_In in Hy. exact (Hbm3 x y v (proj1 Hx) (proj1 Hy) Hxy Hv). }
   split; [exact Hobs|]. rewrite app_length. cbn [length]. lia.
+Qed.
+
+Corollary gen_iter_step n0 s d M L i : GInv n0 s d M L -> 2 <= length L ->
+  exists s' d' M' a b v sz,
+    gen_iter K p meth (s, d, M) i = Ok (s', d', M')
+    /\ In a L /\ In b L /\ a < b
+    /\ d_steps d' = d_steps d ++ [step_new a b v sz]
+    /\ GInv n0 s' d' M' (without a L).
+Proof.
+  intros HI HL. destruct (gen_iter_step_ext i HI HL) as (s' & d' & M' & a & b & v & sz & H1 & H2 & H3 & H4 & H5 & H6 & _).
+  exists s', d', M', a, b, v, sz. repeat (split; [assumption|]). assumption.
 Qed.
 
 (* ---- initialisation: nearest-neighbour candidates of every row ---- *)
@@ -715,6 +848,61 @@ Proof.
     pose proof (@finv_step T n0 d d1 L a b v sz HF Hnd Ha Hb Hab ltac:(congruence) Hsteps) as HF1.
     destruct (IH (S i) s1 d1 M1 (without a L) HI1 HF1 ltac:(lia)) as (s' & d' & M' & L' & Hf & HI' & HF' & Hl').
     eexists _, _, _, L'. split; [exact Hf|]. split; [exact HI'|]. split; [exact HF'|lia].
+Qed.
+
+(* the initialisation establishes the loop invariant *)
+Lemma generic_init (s : lstate T) (d : dend T) (m : list T) (n0 : nat) :
+  n0 <> 0 -> length (square_all K m) = n0 * (n0 - 1) / 2 ->
+  Forall (fun v => ltb v mx = true) (square_all K m) ->
+  let M := {| m_data := square_all K m; m_obs := n0 |} in
+  exists s1,
+    (do '(dists, nearest) <-
+       mfold (init_row K p M) (seq 0 (n0 - 1)) (h_prio (h_heapify_pre mx (st_queue (st_reset K s n0))), st_nearest (st_reset K s n0));
+     do q1 <- h_heapify_post ltb (h_heapify_pre mx (st_queue (st_reset K s n0))) dists;
+     Ok (st_with_nearest (st_with_queue (st_reset K s n0) q1) nearest)) = Ok s1
+    /\ GInv n0 s1 (d_reset d n0) M (seq 0 n0).
+Proof.
+  intros Hz Hlen Hall M.
+  assert (Hwf : wf_mat M) by (unfold wf_mat, M; cbn [m_data m_obs]; exact Hlen).
+  assert (Hbm : below_max M (seq 0 n0)).
+  { intros x y v _ _ _ Hv. rewrite Forall_forall in Hall. apply Hall. unfold wcell, mcell, M in Hv. cbn [m_data] in Hv.
+    eapply nth_error_In. exact Hv. }
+  (* heap and candidates *)
+  assert (Hq0 : h_heapify_pre mx (st_queue (st_reset K s n0)) = h_canonical mx n0).
+  { unfold h_heapify_pre. cbn [st_reset st_queue]. rewrite (h_reset_canonical mx (st_queue s) n0).
+    cbn [h_canonical h_prio]. rewrite map_length, seq_length. apply h_reset_canonical. }
+  rewrite Hq0. change (st_nearest (st_reset K s n0)) with (clear_resize (st_nearest s) n0 0).
+  destruct (@init_rows_spec M n0 Hwf eq_refl Hbm (n0 - 1) (h_prio (h_canonical mx n0)) (clear_resize (st_nearest s) n0 0)
+              ltac:(lia) ltac:(cbn [h_canonical h_prio]; rewrite map_length, seq_length; reflexivity)
+              ltac:(unfold clear_resize; apply vresize_length))
+    as (dists & nearest & Hinit & Hld & Hln & Hrows & Hlast).
+  rewrite Hinit. cbn [bind].
+  destruct (@heapify_post_spec T ltb n0 (h_canonical mx n0) dists (canonical_inv mx n0)
+              ltac:(cbn [h_canonical h_heap]; rewrite map_length, seq_length; reflexivity) Hld)
+    as (q1 & Hheap & HI1 & Hp1 & Hr1 & Hl1 & Hin1).
+  rewrite Hheap. cbn [bind].
+  assert (HO1 : HOrd ltb q1).
+  { exact (@heapify_post_ord T ltb ltb_irrefl ltb_trans n0 (h_canonical mx n0) dists q1 (canonical_inv mx n0)
+             ltac:(cbn [h_canonical h_heap]; rewrite map_length, seq_length; reflexivity) Hld Hheap). }
+  set (s1 := st_with_nearest (st_with_queue (st_reset K s n0) q1) nearest).
+  assert (HG0 : GInv n0 s1 (d_reset d n0) M (seq 0 n0)).
+  { unfold GInv, s1. cbn [st_with_nearest st_with_queue st_reset st_active st_sizes st_queue st_nearest d_reset d_obs d_steps length].
+    split; [apply a_reset_inv|]. split; [exact Hwf|]. split; [reflexivity|].
+    split; [rewrite a_reset_canonical; cbn; rewrite map_length, seq_length; reflexivity|].
+    split; [apply seq_NoDup|]. split; [unfold clear_resize; apply vresize_length|]. split; [lia|].
+    split; [apply in_seq; lia|]. split; [intros x Hx; apply in_seq in Hx; lia|].
+    split.
+    { unfold QN. split; [exact HI1|]. split; [exact HO1|].
+      split; [intros x; rewrite Hin1, canonical_inh, in_seq; lia|]. split; [exact Hln|]. split.
+      - intros x Hx Hxz. apply in_seq in Hx. destruct (Hrows x ltac:(lia)) as (y & v & Hy & Hxy & Hyn & _).
+        exists y. split; [exact Hy|]. split; [apply in_seq; lia|exact Hxy].
+      - rewrite Hp1. split.
+        + rewrite (Hlast (n0 - 1) ltac:(lia)). cbn [h_canonical h_prio].
+          rewrite nth_error_map, (nth_error_nth' _ 0) by (rewrite seq_length; lia). reflexivity.
+        + intros x Hx Hxz. apply in_seq in Hx. destruct (Hrows x ltac:(lia)) as (y & v & _ & _ & _ & Hv & Hlt).
+          exists v. split; assumption. }
+    split; [exact Hbm|]. split; [reflexivity|]. rewrite seq_length. reflexivity. }
+  exists s1. split; [reflexivity|exact HG0].
 Qed.
 
 Theorem generic_total_wf (s : lstate T) (d : dend T) (m : list T) (n : N) :
